@@ -47,6 +47,13 @@ CLAIMED = {
         note=TB + "; (M1) divergence theorem and (M2) Dirichlet formula are mathematical assumptions linking per-triangle flux identities to solid integrals; sums over the symbolic axis are opaque with extensionality+scaling only.",
         technique="contract-based deductive verification: lambda-array symbolic execution of the unmodified source (unbounded triangle count), VCs discharged by z3/cvc5",
     ),
+    "C07": dict(
+        category="proof",
+        text="util.append_faces is proved, for every coordinate and every in-range index at fixed small group sizes (incl. groups with vertices but no faces, in the middle and at the front), to stack vertices in order and to offset block m of the faces by the vertex counts of ALL preceding groups. Trimesh.update_vertices is proved modularly on a ghost self for every boolean mask over four vertices and integer masks (permutations, sub-selection, repetition, identity): every face corner keeps its position, indices stay in range, the tagged per-vertex attribute and the cached vertex normals follow their vertex, the visual is told the same mask, attributes of foreign length are untouched (all real coordinates / attribute values, all in-range face indices). The statement itself is checked bounded on the real classes: a family of 9-12 meshes (solids, open patch, duplicate / degenerate / unreferenced / non-finite / nearly duplicate elements) whose faces and vertices carry identity tags in face_attributes, vertex_attributes, face or vertex colours and cached normals, through update_faces (boolean, integer, repeated, permuted), update_vertices, remove_unreferenced_vertices, merge_vertices (5 option sets), unmerge_vertices, unique/nondegenerate faces, remove_infinite_values, process; submesh, split (repair off, both engines) + concatenate = original triangle multiset, concatenation with face-less members.",
+        design_ref="DESIGN.md §4 C07",
+        note=TB + "; (b) is modular over ghost stand-ins for visuals/cache/attribute stores; array sizes in (a),(b) are a stated bound; the whole-class statement is bounded.",
+        technique="contract-based deductive verification (symbolic execution of append_faces and of Trimesh.update_vertices on a ghost self, z3) + bounded contract evaluation with identity tags on the real classes",
+    ),
     "C09": dict(
         category="proof",
         text="Inductive proof of the scene-graph representation invariant and of `get = product of the current edge matrices along the path` on the mirrored source of SceneGraph/EnforcedForest: from every abstract pre-state (every forest shape over four named frames plus a fresh one, caches empty / fully populated / base-frame only / hash only) every mutator (update of an edge by matrix or translation, __setitem__, unchanged update, geometry change, add leaf under every node, re-parent to every admissible node, remove_node of every node, base_frame change, remove_geometries, clear) is applied with fresh SYMBOLIC affine matrices (12 reals per edge, so all real matrices at once); afterwards the real fields equal the ghost view (edge keys, parents, nodes, hash memo absent-or-current, path cache current) and every query - all ordered pairs, base-frame form, nodes, geometry maps, children, successors, to_flattened, to_edgelist/from_edgelist - equals the spec on the new view. The identity filter of get (factors within 1e-8 of I dropped) is explored on every path for all ordered pairs of every shape. kwargs_to_matrix (precedence, quaternion / axis-angle / translation content) and fix_rigid outside its repair band are proved for all real inputs. Forest shape (4+1 frames) is a stated bound; matrices and histories are not bounded.",
